@@ -1174,8 +1174,15 @@ def emit_marked(unit, blk, text, base):
             _emit_section(unit, blk, part, base)
 
 
+class Caps(list):
+    """captured variables (mut, name, type); `refs` = names declared `ref x: T`: not Copy, read through a reference in `call`"""
+    def __init__(self):
+        super().__init__()
+        self.refs = set()
+
+
 def parse_caps(s):
-    caps = []
+    caps = Caps()
     for c in s.split(","):
         c = c.strip()
         if not c:
@@ -1183,8 +1190,13 @@ def parse_caps(s):
         mut = c.startswith("mut ")
         if mut:
             c = c[4:]
+        ref = c.startswith("ref ")
+        if ref:
+            c = c[4:]
         nm, ty = c.split(":", 1)
         caps.append((mut, nm.strip(), ty.strip()))
+        if ref:
+            caps.refs.add(nm.strip())
     return caps
 
 
@@ -1274,7 +1286,8 @@ def make_closure(unit, blk, k, ca, cparams, cbody, ftext, ftoks, start_idx, base
         _emit_section(unit, blk, f"closure {k} spec", b)
         unit.emit("    {", dict(b, kind="meta"))
         for (m, nm, ty) in caps:
-            unit.emit(f"        let {'mut ' if m else ''}{nm} = self.{nm};", dict(b, kind="glue"))
+            amp = "&" if nm in caps.refs else ""
+            unit.emit(f"        let {'mut ' if m else ''}{nm} = {amp}self.{nm};", dict(b, kind="glue"))
         for bnd in binds:
             unit.emit("        " + bnd, dict(b, kind="glue"))
         _emit_section(unit, blk, f"at closure {k} first", b)
